@@ -781,6 +781,9 @@ func ruleDefaultAAA(p *Program, r *Result) {
 		return
 	}
 	set := map[string]string{}
+	fnPos := fn.Pos()
+	fn = p.localInlined(fn) // the defaults may come from a small constructor of the zero-trust value
+	_ = fnPos
 	for _, b := range fn.Blocks {
 		for _, in := range b.Instrs {
 			st, ok := in.(*ssa.Store)
@@ -791,7 +794,7 @@ func ruleDefaultAAA(p *Program, r *Result) {
 			if !ok {
 				continue
 			}
-			if a, ok := base.(*ssa.Alloc); !ok || a.Comment != "complit" {
+			if a, ok := base.(*ssa.Alloc); !ok || (a.Comment != "complit" && !typeIs(a.Type().(*types.Pointer).Elem(), modPath+"/cmds/server/config", "AAA")) {
 				continue
 			}
 			if mi, ok := st.Val.(*ssa.MakeInterface); ok {
